@@ -192,6 +192,10 @@ def run(rep):
         # guarded by the "last field only" panic
         div = [e for e in ogp.effects.get(q, []) + sum((ogp.effects.get(k, []) for k in ogp.effects), []) if e['kind'] == 'diverge' and 'len' in E.show(e['cond'], maxdepth=12)]
         rep.check(bool(div), 'C06.rts-field', 'rts-last-only', where, 'no panic guards a runtime-sized array that is not the last member', ok_detail='panics unless index == len - 1')
+    # "nested structs refer to the emitted struct of the same name": the struct a member names is reachable from the same variable, so it is
+    # emitted exactly when the type closure follows members / arrays (C08's closure rules)
+    from common import include
+    include(rep, 'c08', ('C08.closure',), 'nested-struct-emitted')
 
 
 def mentions_variant(c, suffix):
